@@ -100,12 +100,9 @@ def quantum (a d : Nat) : Nat := (a / d).log2 - 52
 /-- magnitude of `n / d` (scaled by `2^1074`) rounded to 53 significant bits with an unbounded
     exponent above and the subnormal spacing below -/
 def roundMag (n d : Nat) : Nat :=
-  let a := n * scale
+  let a := scale * n
   let s := quantum a d
   rneDiv a (d * 2 ^ s) * 2 ^ s
-
-/-- scaled magnitude of `2^1024`: a rounded magnitude from here on has no finite double -/
-def overMag : Nat := 2 ^ 2098
 
 inductive Rounded where
   | ok (w : UInt64)
@@ -113,13 +110,15 @@ inductive Rounded where
   | zeroDen                    -- `den = 0`: not a rational
 deriving Repr, DecidableEq, Inhabited
 
+/-- a rounded scaled magnitude as a double: from `2^2098` on (the scaled magnitude of `2^1024`, i.e. a bit
+    length above 2098) there is no finite double -/
+def finish (neg : Bool) (z : Nat) : Rounded :=
+  if 2098 ≤ z.log2 then .overflow neg else .ok (encodeScaled neg z)
+
 /-- the binary64 nearest to `num / den`, ties to even; `+0.0` for 0, `-0.0` for a negative number that
     rounds to zero (as `-1 / 10**400` in Python) -/
 def roundRat (num : Int) (den : Nat) : Rounded :=
-  if den = 0 then .zeroDen
-  else
-    let z := roundMag num.natAbs den
-    if overMag ≤ z then .overflow (decide (num < 0)) else .ok (encodeScaled (decide (num < 0)) z)
+  if den = 0 then .zeroDen else finish (decide (num < 0)) (roundMag num.natAbs den)
 
 /-- the value of a rounding result in the order of doubles (overflow = the infinities) -/
 def Rounded.ext : Rounded → Ext
